@@ -317,6 +317,37 @@ def r5_priority_order(ctx):
     it = [bi for bi, t in b.calls() if call_matches(t, ("slice::iter",)) and any(f == "sources" for _o, f in fl.slice_reads(op_place(t["args"][0])["l"])[0])]
     ctx.check(bool(it) and not bad, R, b.key + "|forward-scan", "sources are iterated forward with iter().enumerate() (%s)" % chain,
               "the source scan order is altered (%s)" % bad, b.loc(0))
+    # the sources a select scans are the sources as WRITTEN: initialize_select stores the popped tuple's elements unmodified (no source is dropped,
+    # merged, rewritten or moved — e.g. collapsing the timeouts into the first timeout's slot moves a short timeout ahead of an earlier source)
+    ib = F.body(EXEC + "::initialize_select")
+    ifl = Flow(ib, through_named=True)
+    ifl0 = Flow(ib)
+    from qvlib.paths import agg_sites as _aggs
+    MUT = ("retain", "retain_mut", "sort", "sort_by", "sort_by_key", "sort_unstable", "sort_unstable_by", "sort_unstable_by_key", "reverse", "swap", "remove",
+           "swap_remove", "insert", "push", "pop", "truncate", "drain", "dedup", "dedup_by", "dedup_by_key", "iter_mut", "rotate_left", "rotate_right", "clear",
+           "extend", "append", "split_off", "index_mut", "get_mut", "first_mut", "last_mut", "as_mut_slice", "deref_mut", "fill")
+    stored = 0
+    for bi_, si_, st_ in _aggs(ib, "process::SelectState"):
+        d_ = dict(zip(st_["rv"]["fields"], st_["rv"]["ops"]))
+        sp_ = op_place(d_.get("sources", {}))
+        if not sp_:
+            continue
+        stored += 1
+        root = ifl0.canon_place(sp_)[0]
+        group = ifl.backward({root}) | {root}
+        vecs = {l for l in group if "Vec<quiver_core::value::Value" in (ib.local_ty(l) or "") and not (ib.local_ty(l) or "").startswith("&")}
+        muts = []
+        for b2, t2 in ib.calls():
+            m = (t2.get("callee") or "").split("::")[-1]
+            if m in MUT and t2["args"] and op_place(t2["args"][0]):
+                c2 = ifl0.canon_op(t2["args"][0]) or ifl.canon_op(t2["args"][0])
+                if c2 and c2[0] in vecs and ib.reaches(b2, bi_):
+                    muts.append((b2, m))
+        ctx.check(not muts, R, ib.key + "|sources-as-written", "SelectState.sources is the popped source tuple, unmodified",
+                  "initialize_select rewrites the source list before storing it (%s): the written order / number / values of the sources decide which one "
+                  "wins; a normalised list no longer does" % sorted({m for _b, m in muts}), ib.loc(muts[0][0]) if muts else ib.loc(bi_, si_))
+    if not stored:
+        raise CheckError("R-C05-5: the SelectState literal of initialize_select was not found")
     nexts = [bi for bi, t in b.calls() if call_matches(t, ("Iterator::next",))]
     # completion happens only while walking the sources in order, and only here
     callers = sorted({k.split("::{closure")[0] for k, _ in F.callers_of(EXEC + "::complete_select")})
@@ -452,8 +483,13 @@ def r7_receive_tables(ctx):
     from rules import c08
     before = len(ctx.obs)
     c08.r2_tables_describe_whole_program(ctx)
+    c08.r1_concrete_tags(ctx)
     for o in ctx.obs[before:]:
         o["rule"] = "R-C05-7"
+    ctx.rules.pop("R-C08-1", None)
+    for f in ctx.floors:
+        if f["rule"] == "R-C08-1":
+            f["rule"] = "R-C05-7"
     if "R-C08-2" in ctx.rules:
         ctx.rules["R-C05-7"] = ctx.rules.pop("R-C08-2")
     for f in ctx.floors:
